@@ -100,6 +100,9 @@ structure Obj where
   appRefs : Nat := 1
 deriving Repr, Inhabited, DecidableEq
 
+/-- One reference less; freed when that was the last one. -/
+def Obj.dropped (p : Obj) : Obj := { p with refcount := p.refcount - 1, freed := decide (p.refcount - 1 = 0) }
+
 /-- `win->pen`. -/
 inductive PenRef where
   | null
@@ -396,10 +399,7 @@ def penUnref (st : St) (k : Nat) : Out St :=
   | some p =>
     if p.freed then .ub .mem s!"use of freed pen {k}"
     else if p.refcount < 1 then .ub .abort s!"tickit_pen_unref: invalid refcount on pen {k}"
-    else
-      let p := { p with refcount := p.refcount - 1 }
-      let p := if p.refcount = 0 then { p with freed := true } else p
-      pure { st with pens := st.pens.setIfInBounds k p }
+    else pure { st with pens := st.pens.setIfInBounds k p.dropped }
 
 /-- `tickit_pen_ref`. -/
 def penRef (st : St) (k : Nat) : Out St :=
@@ -413,10 +413,7 @@ def penRef (st : St) (k : Nat) : Out St :=
 def termUnref (st : St) : Out St :=
   if st.term.freed then .ub .mem "use of freed terminal"
   else if st.term.refcount < 1 then .ub .abort "tickit_term_unref: invalid refcount"
-  else
-    let tm := { st.term with refcount := st.term.refcount - 1 }
-    let tm := if tm.refcount = 0 then { tm with freed := true } else tm
-    pure { st with term := tm }
+  else pure { st with term := st.term.dropped }
 
 /-! ## window reference counting and destruction
 
